@@ -242,4 +242,17 @@ PROPS = {
         "assumptions": [],
         "design_ref": "DESIGN.md §3.3, §3.11, §4 C04",
     },
+    "C14": {
+        "rules": ["INSTRLINT", "INSTRSPEC"],
+        "thorough": [],
+        "technique": "static analysis: lint of every @instr (format keys, lane counts, stride assertions, trip counts) + lane-symbolic evaluation of the C fragment through a table of intrinsic semantics, compared with the Exo body term-by-term (no execution, no solver)",
+        "level_text": "For every x86 instruction: the C template only uses keys the compiler supplies, register operands have the lane count of their register file, vector operands carry unit-stride "
+        "assertions, the body writes as many lanes as the operand has; and for the instructions whose intrinsics are in the checker's table (58 of 60 today) the C fragment, evaluated per lane on symbolic operands, "
+        "yields exactly the per-lane terms of the body (modulo associativity/commutativity of + and *), for every admissible value of the mask/size parameters. Instructions outside the table are reported as unanalysed, not passed.",
+        "level_note": "Trusted base: the intrinsic-semantics table in rules/instr.py (printed in evidence), written from the Intel intrinsics guide; three of the recorded mismatches were additionally confirmed on this host. "
+        "Floating-point rounding and exceptions are not modelled (terms are over reals); ui16 saturation is modelled as a distinct operator.",
+        "explanation": "INSTRLINT per instruction; INSTRSPEC: parse C (decl/assign/call/cast/address-of/compound literal), evaluate through the table to per-lane terms, evaluate the Exo loop body with ast, enumerate size parameters from the assertions, compare states.",
+        "assumptions": ["intrinsic table", "sizes are >= 1"],
+        "design_ref": "DESIGN.md §3.20, §4 C14",
+    },
 }
